@@ -3,7 +3,8 @@ _A = ['op_literal', 'op_drop', 'op_drop_n', 'op_dup', 'op_loop', 'op_jump_if_fal
       'op_equal', 'op_not_equal', 'op_constant', 'op_constant_long', 'op_send', 'op_receive',
       'op_push_handler', 'op_pop_handler', 'op_check_handler', 'op_continue_unwind', 'op_get_error', 'op_raise',
       'op_invoke', 'invoke', 'op_super_invoke', 'op_get_super', 'bind_method', 'call_method', 'invoke_from_class',
-      'op_get_prop_by_name', 'op_set_prop_by_name', 'op_get_prop', 'op_set_prop', 'op_channel', 'op_buffered_channel']
+      'op_get_prop_by_name', 'op_set_prop_by_name', 'op_get_prop', 'op_set_prop', 'op_channel', 'op_buffered_channel',
+      'op_get_local', 'op_set_local', 'op_box', 'op_empty_box', 'op_fill_box', 'op_get_box', 'op_set_box', 'op_get_capture', 'op_set_capture', 'op_list', 'op_tuple']
 
 UNIT = dict(
   name='ops',
@@ -73,6 +74,25 @@ UNIT = dict(
     # R4: Option::or_else with a closure that captures &mut self
     ('R4', 'Vm::op_send', dict(pat=r'(\w+)\.or_else\(\|\|\s*self\.fiber\.get_runnable\(\)\)', rep=r'(match \1 { Some(verif_w) => Some(verif_w), None => self.fiber.get_runnable() })', regex=True, optional=True)),
     ('R4', 'Vm::op_receive', dict(pat=r'(\w+)\.or_else\(\|\|\s*self\.fiber\.get_runnable\(\)\)', rep=r'(match \1 { Some(verif_w) => Some(verif_w), None => self.fiber.get_runnable() })', regex=True, optional=True)),
+    # ---- list / tuple literals: the argument slice aliases the stack through a raw pointer; the model copies it at the same moment ----
+    ('R9', 'Vm::op_list', dict(pat='let args = self.fiber.stack_slice(arg_count);', rep='let verif_args = self.fiber.stack_copy(arg_count);\n    let args: &[Value] = verif_args.as_slice();', count=1)),
+    ('R9', 'Vm::op_tuple', dict(pat='let args = self.fiber.stack_slice(arg_count);', rep='let verif_args = self.fiber.stack_copy(arg_count);\n    let args: &[Value] = verif_args.as_slice();', count=1)),
+    ('R9', 'Vm::op_list', dict(pat='self.manage_obj(list!(args))', rep='self.manage_seq(args, true)', count=1)),
+    ('R9', 'Vm::op_tuple', dict(pat='self.manage_obj(args)', rep='self.manage_seq(args, false)', count=1)),
+    # ---- locals / boxes / captures (R9: raw frame pointer and GC pointers into the model's stack vector and box heap) ----
+    ('R9', 'Vm::op_box', dict(pat=r'let slot = self\.stack_start\(\)\.offset\(slot\);\s*let local = \*slot;\s*\*slot = val!\(self\.manage_obj\(LyBox::new\(local\)\)\);',
+                              rep='let local = self.fiber.frame_slot_get(slot);\n    let verif_box = val!(self.manage_box(local));\n    self.fiber.frame_slot_set(slot, verif_box);', regex=True, count=1)),
+    ('R9', 'Vm::op_empty_box', dict(pat='self.manage_obj(LyBox::default())', rep='self.manage_box(VALUE_UNDEFINED)', count=1)),
+    ('R9', 'Vm::op_fill_box', dict(pat='self.fiber.peek(0).to_obj().to_box().value = value;', rep='let verif_b = self.fiber.peek(0).to_obj(); self.box_set(verif_b, value);', count=1)),
+    ('R9', 'Vm::op_set_local', dict(pat='*self.stack_start().offset(slot) = copy;', rep='self.fiber.frame_slot_set(slot, copy);', count=1)),
+    ('R9', 'Vm::op_set_box', dict(pat='(*self.stack_start().offset(slot)).to_obj().to_box().value = copy;', rep='let verif_b = self.fiber.frame_slot_get(slot).to_obj(); self.box_set(verif_b, copy);', count=1)),
+    ('R9', 'Vm::op_get_local', dict(pat='let local = *self.stack_start().offset(slot);', rep='let local = self.fiber.frame_slot_get(slot);', count=1)),
+    ('R9', 'Vm::op_get_box', dict(pat='let local = *self.stack_start().offset(slot);', rep='let local = self.fiber.frame_slot_get(slot);', count=1)),
+    ('R9', 'Vm::op_get_box', dict(pat='let local = local.to_obj().to_box().value;', rep='let local = self.box_get(local.to_obj());', count=1)),
+    ('R14', 'Vm::op_get_box', dict(pat='local == VALUE_UNDEFINED', rep='verif_val_eq(local, VALUE_UNDEFINED)', count=1)),
+    ('R9', 'Vm::op_get_box', dict(pat=r'match self\s*\.current_fun\s*\.module\(\)\s*\.get_symbol_name_by_slot\(slot as usize\)', rep='match self.verif_symbol_name_by_slot(slot as usize)', regex=True, count=1)),
+    ('R9', 'Vm::op_get_capture', dict(pat='self.fiber.captures().get_capture_value(slot as usize)', rep='self.capture_get(self.fiber.captures(), slot as usize)', count=1)),
+    ('R9', 'Vm::op_set_capture', dict(pat=r'self\s*\.fiber\s*\.captures\(\)\s*\.set_capture_value\(slot as usize, value\);', rep='let verif_c = self.fiber.captures(); self.capture_set(verif_c, slot as usize, value);', regex=True, count=1)),
     # channel creation: manage_obj is generic over the managed type; the model has one allocation stub per type (R6); float tests through named stubs (R14)
     ('R6', 'Vm::op_channel', dict(pat='self.manage_obj(Channel::', rep='self.manage_chan(Channel::', count=1)),
     ('R6', 'Vm::op_buffered_channel', dict(pat='self.manage_obj(Channel::', rep='self.manage_chan(Channel::', count=1)),
